@@ -125,12 +125,13 @@ def _prof(name: str) -> Any:
             {
                 'ax': Prof(symbol=1, svar=False, mu=False, app=False, metavars=2, notations=(P.bot, P.neg)),
                 'leaf': Prof(symbol=1, svar=False, mu=False, app=False, exists=False, implies=False, metavars=2),
+                'ax_subst': Prof(symbol=1, mu=False, app=False, metavars=2, subst=True),
             }
         )
     return PROFS[name]
 
 
-def h_rules(ctx: Any, rule: str, n: int, twin: bool = False) -> None:
+def h_rules(ctx: Any, rule: str, n: int, prof: str = 'ax', twin: bool = False) -> None:
     """a module whose single proof is one rule applied to axioms / axiom schemas; its claim is the conclusion the toolkit advertises"""
     from proof_generation import pattern as P
     from proof_generation.proof import ProofExp
@@ -153,9 +154,9 @@ def h_rules(ctx: Any, rule: str, n: int, twin: bool = False) -> None:
             th = pe.modus_ponens(pe.load_axiom(ax), pe.load_axiom(ax2))
         else:
             bases = ['prop1', 'prop2', 'axiom']
-            base = bases[ctx.choose(len(bases), 'base')]
+            base = bases[ctx.choose(len(bases), 'base')] if prof == 'ax' else 'axiom'
             if base == 'axiom':
-                ax = gens.gen(ctx, n, _prof('ax'))
+                ax = gens.gen(ctx, n, _prof(prof))
                 pe.add_axiom(ax)
                 bt = pe.load_axiom(ax)
             else:
@@ -361,6 +362,9 @@ def levels(tier: str) -> list[dict]:
             if rule in ('inst', 'dyninst') and n > 3:
                 continue
             L.append(dict(label=f'rule/{rule}/premise={n}', module=M, fn='h_rules', kwargs=dict(rule=rule, n=n), budget_s=bud, required=n <= 3, twin=(rule == 'gen' and n == 3)))
+    for rule in ('inst', 'dyninst'):
+        for n in ([3] if q else [3, 4]):
+            L.append(dict(label=f'rule/{rule}/axiom-with-pending-substitutions={n}', module=M, fn='h_rules', kwargs=dict(rule=rule, n=n, prof='ax_subst'), budget_s=bud, required=n <= 3, twin=False))
     for shape, nax, size in ([(0, 1, 3), (1, 1, 2), (2, 1, 2)] if q else [(0, 2, 3), (1, 2, 2), (2, 1, 3), (2, 2, 2)]):
         L.append(dict(label=f'module/imports={shape},axioms={nax},size<={size}', module=M, fn='h_module', kwargs=dict(shape=shape, nax=nax, size=size), budget_s=bud, required=True, twin=(shape == 1)))
     return L
